@@ -41,6 +41,8 @@ let report_spec ~prop ~pred ~detail =
     Printf.printf "SPEC hid=%s op=%d prop=%s pred=%s detail=%s desc=[%s] hdr=[%s]\n" !hid !opno prop pred detail !cur !header end
 
 let histo : (string, int) Hashtbl.t = Hashtbl.create 64
+let xc_seen = ref 0
+let xc lhs rhs = incr xc_seen; if !xc_seen mod 7 = 1 && !xc_seen < 7 * 60 then Printf.printf "XC %s === %s\n" lhs rhs
 let bump_count key = Hashtbl.replace histo key (1 + (try Hashtbl.find histo key with Not_found -> 0))
 let histories = ref 0
 let ops_total = ref 0
@@ -262,6 +264,11 @@ let () =
                   | ("reserve" | "reserve_exact"), Ret v -> (match reserve e v (n_of_string cnt) (entry = "reserve_exact") with Ret _ -> "ok" | Panic PCapacity -> "panic:capacity" | Panic _ -> "panic:oom")
                   | _, Ret v -> (match try_reserve e v (n_of_string cnt) (entry = "try_reserve_exact") with Inl _ -> "ok" | Inr CapacityOverflow -> "err:capacity" | Inr AllocErr -> "err:alloc")
                   | _, Panic _ -> "?" in
+                (match entry with
+                 | "with_capacity" ->
+                   xc (Printf.sprintf "match vwith_capacity (mkEcfg %s %s) %s with Ret _ => 0 | Panic PCapacity => 1 | Panic _ => 2 end" es ea cnt)
+                     (match expect with "ok" -> "0" | "panic:capacity" -> "1" | _ -> "2")
+                 | _ -> ());
                 if expect <> bclass then report_mismatch ~field:("grid_" ^ entry) ~model:expect ~impl:bres
               end
             | _ -> ())
